@@ -259,21 +259,24 @@ func H_reference() {
 
 // calleeForms: ways an array reaches code that writes to it: the CALLER's array must be unchanged
 // afterwards. P is the expression naming the received array inside the callee.
-var calleeForms = []struct{ name, decl, call, p string }{
-	{"parameter", "function cw($p, $w) { MUT return 1; }", "cw($a, $w);", "$p"},
-	{"variadic", "function cw($w, ...$r) { MUT return 1; }", "cw($w, $a);", "$r[0]"},
-	{"variadic-second", "function cw($w, ...$r) { MUT return 1; }", "cw($w, 5, $a);", "$r[1]"},
-	{"spread-call", "function cw($w, ...$r) { MUT return 1; }", "cw($w, ...[$a]);", "$r[0]"},
-	{"default-then-parameter", "function cw($w, $p, $q = [1]) { MUT return 1; }", "cw($w, $a);", "$p"},
-	{"method-parameter", "class CW { function m($p, $w) { MUT return 1; } } $k = new CW();", "$k->m($a, $w);", "$p"},
-	{"static-method-parameter", "class CW { static function m($p, $w) { MUT return 1; } }", "CW::m($a, $w);", "$p"},
-	{"constructor-parameter", "class CW { function __construct($p, $w) { MUT } }", "$k = new CW($a, $w);", "$p"},
-	{"closure-parameter", "$f = function($p, $w) { MUT return 1; };", "$f($a, $w);", "$p"},
-	{"closure-capture", "", "$f = function($w) use ($a) { MUT return 1; }; $f($w);", "$a"},
-	{"arrow-parameter-then-call", "function cw($p, $w) { MUT return 1; } $g = fn($p, $w) => cw($p, $w);", "$g($a, $w);", "$p"},
+var calleeForms = []struct{ name, decl, call, p, pre, target string }{
+	{"parameter", "function cw($p, $w) { MUT return 1; }", "cw($a, $w);", "$p", "", ""},
+	{"variadic", "function cw($w, ...$r) { MUT return 1; }", "cw($w, $a);", "$r[0]", "", ""},
+	{"variadic-second", "function cw($w, ...$r) { MUT return 1; }", "cw($w, 5, $a);", "$r[1]", "", ""},
+	{"spread-call", "function cw($w, ...$r) { MUT return 1; }", "cw($w, ...[$a]);", "$r[0]", "", ""},
+	{"default-then-parameter", "function cw($w, $p, $q = [1]) { MUT return 1; }", "cw($w, $a);", "$p", "", ""},
+	{"method-parameter", "class CW { function m($p, $w) { MUT return 1; } } $k = new CW();", "$k->m($a, $w);", "$p", "", ""},
+	{"static-method-parameter", "class CW { static function m($p, $w) { MUT return 1; } }", "CW::m($a, $w);", "$p", "", ""},
+	{"constructor-parameter", "class CW { function __construct($p, $w) { MUT } }", "$k = new CW($a, $w);", "$p", "", ""},
+	{"closure-parameter", "$f = function($p, $w) { MUT return 1; };", "$f($a, $w);", "$p", "", ""},
+	{"closure-capture", "", "$f = function($w) use ($a) { MUT return 1; }; $f($w);", "$a", "", ""},
+	{"arrow-parameter-then-call", "function cw($p, $w) { MUT return 1; } $g = fn($p, $w) => cw($p, $w);", "$g($a, $w);", "$p", "", ""},
 	// the loop variable of a by-value foreach over rows holding the array
-	{"foreach-value", "", "$rows = [$a, $a]; foreach ($rows as $row) { MUT } $a2 = $rows[0];", "$row"},
-	{"foreach-key-value", "", "$rows = [\"r\" => $a]; foreach ($rows as $k => $row) { MUT }", "$row"},
+	// (the array observed is the row inside $rows, which the loop variable must not alias)
+	{"foreach-value", "", "foreach ($rows as $row) { MUT }", "$row", "$rows = [$a, $a];", "$rows[1]"},
+	{"foreach-value-first", "", "foreach ($rows as $row) { MUT }", "$row", "$rows = [$a, 5];", "$rows[0]"},
+	{"foreach-key-value", "", "foreach ($rows as $k => $row) { MUT }", "$row", "$rows = [\"r\" => $a];", "$rows[\"r\"]"},
+	{"foreach-mixed", "", "foreach ($rows as $k => $row) { MUT }", "$row", "$rows = [$a, \"t\" => 1];", "$rows[0]"},
 }
 
 // H_callee_writes: (shape) x (how the array reaches the callee) x (what the callee does to it).
@@ -292,7 +295,11 @@ func H_callee_writes() {
 	}
 	decl := replace(F.decl, "MUT", mut)
 	call := replace(F.call, "MUT", mut)
-	src := prelude + decl + "\n$a = " + S.lit + ";\n" + snap("$a", sh) + "\nmark(1);\n" + call + "\nmark(2);\n" + snap("$a", sh)
+	target := F.target
+	if target == "" {
+		target = "$a"
+	}
+	src := prelude + decl + "\n$a = " + S.lit + ";\n" + F.pre + "\n" + snap(target, sh) + "\nmark(1);\n" + call + "\nmark(2);\n" + snap(target, sh)
 	s := sx.Compile(src)
 	symx.Assert(s.Err == nil, "template parses")
 	if s.Err != nil {
